@@ -142,6 +142,15 @@ fn replay_one(bid: usize, scn: &J, out: &mut Box<dyn std::io::Write>) {
                 let w = writer.as_mut().unwrap();
                 match guarded(std::panic::AssertUnwindSafe(|| w.flush())) { Ok(r) => r.map(|_| ()).map_err(|e| e.to_string()), Err(p) => { panicked = true; Err(p) } }
             }
+            "flush-sinkfail" => {
+                // the sink accepts the block's bytes, then its own flush() fails: the error must come back and the
+                // block must not be written a second time later
+                sink.1.set(1);
+                let w = writer.as_mut().unwrap();
+                let r = match guarded(std::panic::AssertUnwindSafe(|| w.flush())) { Ok(r) => r.map(|_| ()).map_err(|e| e.to_string()), Err(p) => { panicked = true; Err(p) } };
+                sink.1.set(0);
+                r
+            }
             "extend" => {
                 let ids: Vec<String> = op[1].as_array().unwrap().iter().map(|x| x.as_str().unwrap().to_string()).collect();
                 let w = writer.as_mut().unwrap();
@@ -287,7 +296,8 @@ fn cmd_gen(a: &Args) -> i32 {
                 0..=7 => { ever_header = true; json!(["append", *rng.pick(&ids), "ok"]) }
                 8 => json!(["append-rejected"]),
                 9 => { ever_header = true; json!(["append-encode-fails"]) }
-                10 | 11 => { ever_header = true; json!(["flush"]) }
+                10 => { ever_header = true; json!(["flush"]) }
+                11 => { ever_header = true; if rng.below(2) == 0 { json!(["flush"]) } else { json!(["flush-sinkfail"]) } }
                 12 => { ever_header = true; let k = 1 + rng.below(4); json!(["extend", (0..k).map(|_| *rng.pick(&ids)).collect::<Vec<_>>(), "ok"]) }
                 13 => { let k = rng.below(3); if k > 0 { ever_header = true; } json!(["extend-bad", (0..k).map(|_| *rng.pick(&ids)).collect::<Vec<_>>()]) }
                 14 | 15 => json!(["add-meta", *rng.pick(&["k1", "k2", "k3"]), if ever_header { "err" } else { "ok" }]),
